@@ -947,3 +947,99 @@ Proof.
   split; [exact kpre_keyed_all|]. split; [exact kpre_T_norow|]. split; [exact A|exact C].
 Qed.
 Print Assumptions C12_keyed_arrive_example.
+
+(* ------------------------------------------------------------------------------------------------
+   Round 5, the invariant.  Fifth pass (Sched/Keyed{Inv,Lib,Pass,Thms}.v) through every library call,
+   frame, user-code tree, Task.__step, loop callback and environment action, carrying
+   "fixed order on the tables + all live keys current" jointly with Inv (C13) and WInv true.
+   Side conditions, all checked along the run (Sched/KeyedPass.v, same shape as run_ok / run_ne /
+   run_ord): [run_np] = set_priority (OSetPrio) is never executed - priorities are fixed at spawn
+   (neither by a task, [exec_np], nor from outside the loop, [ADo]). *)
+From Asynkit Require Import Sched.WaitProofs Sched.OrderPass Sched.NoOvertakeThms Sched.KeyedLib
+  Sched.KeyedPass Sched.KeyedThms.
+
+(* C12_keyed_reachable: in EVERY state of every run (both loops, all programs, all lock / condition /
+   event tables) that satisfies run_ok, run_ne (no eager start), run_ord (locks taken in increasing
+   index order) and run_np (no set_priority), every live entry of every PriorityLock is keyed by the
+   current effective priority of its task - over the model with the repairs F16 and F17. *)
+Theorem C12_keyed_reachable :
+  forall prio_loop factor draws lks cds nev acts,
+    let s0 := init_st prio_loop factor draws lks cds nev in
+    run_ok s0 acts -> run_ne s0 acts -> run_ord s0 acts -> run_np s0 acts ->
+    forall k l e,
+      let s := fold_left do_action (firstn k acts) s0 in
+      In e (arr (lpq (getl s l))) -> fdone s (Z.to_nat (eobj e)) = false ->
+      (epri e == wprio s (entry_task (getl s l) e))%Q.
+Proof.
+  intros prio_loop factor draws lks cds nev acts s0 Hok Hne Hord Hnp k l e.
+  exact (keyed_run prio_loop factor draws lks cds nev acts Hok Hne Hord Hnp k l e).
+Qed.
+Print Assumptions C12_keyed_reachable.
+
+(* the same as a statement about reachable states *)
+Theorem C12_keyed_reachable_state :
+  forall s, reachable_kd s -> forall l, keyed s l.
+Proof. exact keyed_reachable. Qed.
+Print Assumptions C12_keyed_reachable_state.
+
+(* the domain is the C11 domain with one more run-checked condition *)
+Theorem C12_keyed_domain :
+  forall s, reachable_kd s <->
+    exists p fa dr lks cds nev acts,
+      run_ok (init_st p fa dr lks cds nev) acts /\ run_ne (init_st p fa dr lks cds nev) acts /\
+      run_ord (init_st p fa dr lks cds nev) acts /\ run_np (init_st p fa dr lks cds nev) acts /\
+      s = fold_left do_action acts (init_st p fa dr lks cds nev).
+Proof. intros s. reflexivity. Qed.
+Print Assumptions C12_keyed_domain.
+
+(* what run_np checks at an action *)
+Theorem C12_run_np_unfold :
+  forall s a rest,
+    run_np s (a :: rest) <->
+    (match a with
+     | AStep => run_one_np s
+     | ADo op => match op with OSetPrio _ => False | _ => True end
+     | _ => True end) /\ run_np (do_action s a) rest.
+Proof. intros s a rest. destruct a; reflexivity. Qed.
+Print Assumptions C12_run_np_unfold.
+
+(* C12_no_overtake_reachable: the history theorem C12_no_overtake with the hypothesis [keyed]
+   DISCHARGED on this domain.  If waiter fa (arrival number qa) waits on l in all states of [i, j+1],
+   the holder of l is not itself queued in the states of [i, j] (holder_free, kept as a hypothesis),
+   and fb is strictly less urgent than fa (current effective priorities) in every state of [i, j] in
+   which it is queued, then no action k in [i, j] grants l to fb. *)
+Theorem C12_no_overtake_reachable :
+  forall prio_loop factor draws lks cds nev acts,
+    let s0 := init_st prio_loop factor draws lks cds nev in
+    let T := fun k => fold_left do_action (firstn k acts) s0 in
+    run_ok s0 acts -> run_ne s0 acts -> run_ord s0 acts -> run_np s0 acts ->
+    forall l fa qa fb i j, j < length acts ->
+      (forall k, i <= k <= S j ->
+         (exists e, In e (arr (lpq (getl (T k) l))) /\ Z.to_nat (eobj e) = fa /\ eseq e = qa) /\
+         fdone (T k) fa = false) ->
+      (forall k, i <= k <= j -> forall o l0 f, lowner (getl (T k) l) = Some o -> ~ In (f, o) (lwt (getl (T k) l0))) ->
+      (forall k, i <= k <= j -> In fb (pq_objs (lpq (getl (T k) l))) ->
+         (wprio (T k) (task_of_fut (getl (T k) l) fa) < wprio (T k) (task_of_fut (getl (T k) l) fb))%Q) ->
+      forall k, i <= k <= j ->
+        ~ (In fb (pq_objs (lpq (getl (T k) l))) /\ In fb (pq_objs (lpq (getl (T (S k)) l))) /\
+           fdone (T k) fb = false /\ woken (T (S k)) fb = true).
+Proof.
+  intros prio_loop factor draws lks cds nev acts s0 T Hok Hne Hord Hnp l fa qa fb i j.
+  exact (no_overtake_reachable prio_loop factor draws lks cds nev acts Hok Hne Hord Hnp l fa qa fb i j).
+Qed.
+Print Assumptions C12_no_overtake_reachable.
+
+(* Non-vacuity: the F17 run [kacts] (three locks, nested waiters, U cancelled while queued, T arrives on
+   the lock U holds) satisfies all four run conditions; state 12 of it is in the domain, and the THEOREM
+   gives [keyed] for all its locks (lock 2 holds the re-keyed entry of O1 and W2's entry). *)
+Theorem C12_keyed_reachable_example :
+  run_ok kst0 kacts /\ run_ne kst0 kacts /\ run_ord kst0 kacts /\ run_np kst0 kacts /\
+  reachable_kd kst12 /\ (forall l, keyed kst12 l) /\
+  arr (lpq (getl kst12 2)) = [mkE (-5)%Q 0 3; mkE 3%Q 1 8] /\
+  tholding (gett kst12 1) <> [].
+Proof.
+  split; [exact krun_ok|]. split; [exact krun_ne|]. split; [exact krun_ord|]. split; [exact krun_np|].
+  split; [exact kst12_reachable_kd|]. split; [exact kst12_keyed_all|]. split; [exact kst12_arr2|].
+  vm_compute. discriminate.
+Qed.
+Print Assumptions C12_keyed_reachable_example.
